@@ -7,12 +7,12 @@ CONSTANTS Comp = "hub_pro"
   Hosts <- H3
   InitAt <- At3_3
   MovePorts <- Mv_none
-  Dsts <- D_All3
+  Dsts <- D_1UB
   Shapes <- Sh_al
   NBuf = 2
   Gaps <- G_31
   Strict = TRUE
-  D = 3
+  D = 2
 INIT Init
 NEXT Next
 VIEW viewE
